@@ -194,13 +194,12 @@ def PixR.mkCompound (r1 r2 : PixR α) (op : BoolOp) (metaArg : Option Meta) (vis
     (match visualArg with | none => r1.visualD | some v => v)
 
 /-- `CompoundSkyRegion.__init__(region1, region2, operator, meta=None, visual=None)`:
-`None` ⇒ region1's dictionary, otherwise **`RegionMeta()` / `RegionVisual()`** – the argument is
-discarded (`else: self.meta = RegionMeta()`).  This is finding F2. -/
+`None` ⇒ region1's dictionary, otherwise the argument (as `CompoundPixelRegion.__init__`; F2 fixed). -/
 def SkyR.mkCompound (r1 r2 : SkyR Sky α) (op : BoolOp) (metaArg : Option Meta) (visualArg : Option (Visual α)) :
     SkyR Sky α :=
   .compound op r1 r2
-    (match metaArg with | none => r1.metaD | some _ => Meta.empty)
-    (match visualArg with | none => r1.visualD | some _ => Visual.empty)
+    (match metaArg with | none => r1.metaD | some m => m)
+    (match visualArg with | none => r1.visualD | some v => v)
 
 end ctor
 
